@@ -54,6 +54,9 @@ def gen_ops(r, n, others, modes=True, full_range=False, valid=True):
             ops.append("crop")
         elif k < 0.79:
             ops.append("offsets:%d,%d,%d,%d" % tuple(r.choice([0, 1, 276, 8191, 8192 if full_range else 100, r.randrange(0, 4000)]) for _ in range(4)))
+        elif k < 0.805:
+            # source levels at and beyond the 12-bit bound (a value that cannot be written must fail the write)
+            ops.append("srclv:%s,%s" % (r.choice(["-", "0", "7", "4095", "4096"]), r.choice(["-", "3079", "4095", "4096", "5000", "65535"])))
         elif k < 0.82:
             ops.append("rmmap")
         elif k < 0.86:
